@@ -130,9 +130,13 @@ LSwapClosed == /\ up /\ closed /\ lpc = "locked" /\ L("failed") /\ wlock' = "non
 \* failed: it closes it and keeps the entry - with the disk backend every later lookup in this CRL is an error and the connection
 \* is denied (fail closed, C09) until the next instance opens the directory again; a closed memory store keeps answering. The
 \* contents on disk are untouched, and an entry that had nothing in force is still not loaded.
+\* Named deviation (off; a configuration may replace it by DeviationOn): the entry is marked loaded BEFORE the swap is attempted.
+LoadedBeforeSwap == FALSE
+DeviationOn == TRUE
 LSwapFault == /\ up /\ ~closed /\ lpc = "locked" /\ L("failed") /\ wlock' = "none"
               /\ final' = IF Disk THEN [final EXCEPT !.open = FALSE] ELSE final
-              /\ Same(<<origin, liveDoc, stage, aside, tmpfile, loaded, kind, cursor, fetched, runs, up>>) /\ UNCHANGED Ghosts /\ UNCHANGED RdVars
+              /\ loaded' = (loaded \/ LoadedBeforeSwap)
+              /\ Same(<<origin, liveDoc, stage, aside, tmpfile, kind, cursor, fetched, runs, up>>) /\ UNCHANGED Ghosts /\ UNCHANGED RdVars
               /\ Emit(<<"swapFault">>)
 LMapSwap == /\ up /\ ~closed /\ ~Disk /\ lpc = "locked"
             /\ final' = [exists |-> TRUE, keys |-> stage.keys, meta |-> TRUE, open |-> TRUE] /\ liveDoc' = DocOf(fetched.keys) /\ stage' = NoStage
